@@ -22,7 +22,7 @@ def run(ctx, model_ok):
         st.pop("samples")
         ctx.cov["correspondence"] = st
     budget = 10 if len(ctx.broken) else 1
-    fails, ost = oracle.sweep(ctx, ctx.scale(42, 2500) * budget)
+    fails, ost = oracle.sweep(ctx, ctx.scale(42, 800) * budget)
     ctx.failing += fails
     ctx.cov["oracle"] = ost
     k = [v for v in ost.values() if isinstance(v, int)][0]
